@@ -156,7 +156,10 @@ impl Number {
             Ok(self.powi(exp))
         } else if num == one {
             let exp: Option<i64> = den.as_int();
-            self.root(exp.unwrap() as i32)
+            match exp {
+                Some(exp) if exp <= i32::MAX as i64 => self.root(exp as i32),
+                _ => Err("Root degree is too large".to_string()),
+            }
         } else if !self.dimless() {
             Err("Exponentiation must result in integer dimensions".to_string())
         } else {
